@@ -116,9 +116,9 @@ type c19e2e struct {
 }
 
 type c19case struct {
-	Kind string    `json:"kind"` // static | e2e
-	Flag *c19flag  `json:"flag,omitempty"`
-	E2E  *c19e2e   `json:"e2e,omitempty"`
+	Kind string   `json:"kind"` // static | e2e
+	Flag *c19flag `json:"flag,omitempty"`
+	E2E  *c19e2e  `json:"e2e,omitempty"`
 }
 
 // c19resolve finds the command a command line runs and all flags it accepts (local + inherited).
